@@ -182,7 +182,11 @@ func checkViolation(prop, c string, ti, i int, where string) Violation {
 	if k := strings.Index(inv, "/"); k >= 0 {
 		p, inv = inv[:k], inv[k+1:]
 	}
-	return Violation{Prop: p, Invariant: inv, Task: ti, OpIdx: i, Detail: detail + " [" + where + "]"}
+	class := ""
+	if k := strings.Index(inv, "#"); k >= 0 {
+		inv, class = inv[:k], inv[k+1:]
+	}
+	return Violation{Prop: p, Invariant: inv, Class: class, Task: ti, OpIdx: i, Detail: detail + " [" + where + "]"}
 }
 
 // main is the body of an ordinary task.
